@@ -66,7 +66,7 @@ Example forms_agree_applies :
 Proof.
   eexists. split; [vm_compute; left; reflexivity|]. split.
   - eapply (forms_agree (fun _ => []) (fun _ => []) ex_pf (fun _ => DBad) ex_cfg None true (segment_rows ex_rows) [] _ _ BTable 0).
-    + exact stock_fix_stock.
+    + exact stock_fix_kind.
     + apply surjective_pairing.
     + vm_compute. left. reflexivity.
   - vm_compute. reflexivity.
